@@ -20,6 +20,13 @@ func main() {
 	switch os.Args[1] {
 	case "check":
 		os.Exit(check(os.Args[2:]))
+	case "layout":
+		p, err := load.Load("/repo", load.Mod, nil, true)
+		if err != nil {
+			fmt.Println(err)
+			os.Exit(2)
+		}
+		rules.LayoutDump(p, os.Args[2], os.Args[3], os.Args[4:])
 	case "list":
 		for _, id := range rules.IDs() {
 			fmt.Println(id)
